@@ -95,3 +95,18 @@ def loop_fallible(extra_total=()):
         return set()
 
     return pred
+
+
+def is_stdin_write(call: ast.AST, fn_node: ast.AST) -> bool:
+    """`….stdin.send(…)` — also through a local that only names the pipe (`stdin = self.process.stdin; await stdin.send(…)`)"""
+    if not (isinstance(call, ast.Call) and isinstance(call.func, ast.Attribute) and call.func.attr in ("send", "send_all", "write")):
+        return False
+    recv = call.func.value
+    if ast.unparse(recv).endswith("stdin"):
+        return True
+    if isinstance(recv, ast.Name):
+        from ..model import local_values
+
+        vals = [v for v in local_values(fn_node).get(recv.id, []) if v is not None]
+        return bool(vals) and all(ast.unparse(v).endswith("stdin") for v in vals)
+    return False
